@@ -81,12 +81,13 @@ type Run struct {
 	free   bool // gates stopped parking (drive to completion)
 	debug  []string
 
-	yield   int // per-mille probability of a yield/sleep in a hook (record mode)
-	rng     *rand.Rand
-	rngMu   sync.Mutex
-	Handler func(r *Run, role Role, w dns.ResponseWriter, req *dns.Msg)
-	// pktOfID maps a DNS message id to the packet number (real UDP)
+	yield  int // per-mille probability of a yield/sleep in a hook (record mode)
+	rng    *rand.Rand
+	rngMu  sync.Mutex
 	exited map[Role]bool
+	// OnRecord, when set, is called for every record hook event after it was logged.
+	// It runs inside the library's critical section and must not block.
+	OnRecord func(ev string)
 }
 
 var (
@@ -140,7 +141,8 @@ func (r *Run) Bind(role Role) {
 	r.mu.Unlock()
 }
 
-func (r *Run) roleOf(g int64) (Role, bool) {
+// RoleOf returns the role bound to goroutine g.
+func (r *Run) RoleOf(g int64) (Role, bool) {
 	r.mu.Lock()
 	defer r.mu.Unlock()
 	x, ok := r.roles[g]
@@ -172,6 +174,8 @@ func (r *Run) NewPacketConn() *fakenet.PacketConn {
 
 func (r *Run) Conn(id int) *fakenet.Conn { r.mu.Lock(); defer r.mu.Unlock(); return r.connID[id] }
 
+func (r *Run) Listener(id int) *fakenet.Listener { r.mu.Lock(); defer r.mu.Unlock(); return r.lsns[id] }
+
 // Emit appends an event; the sequence number is taken here.
 func (r *Run) Emit(e Event) {
 	if e.Res == "" {
@@ -194,7 +198,8 @@ func (r *Run) Events() []Event {
 // NEvents returns the length of the log.
 func (r *Run) NEvents() int { r.mu.Lock(); defer r.mu.Unlock(); return len(r.events) }
 
-func (r *Run) dbg(f string, a ...interface{}) {
+// Dbg appends to the debug log.
+func (r *Run) Dbg(f string, a ...interface{}) {
 	r.mu.Lock()
 	if len(r.debug) < 4000 {
 		r.debug = append(r.debug, fmt.Sprintf(f, a...))
@@ -203,7 +208,11 @@ func (r *Run) dbg(f string, a ...interface{}) {
 }
 
 // Debug returns the gate/debug log (not part of the trace).
-func (r *Run) Debug() []string { r.mu.Lock(); defer r.mu.Unlock(); return append([]string(nil), r.debug...) }
+func (r *Run) Debug() []string {
+	r.mu.Lock()
+	defer r.mu.Unlock()
+	return append([]string(nil), r.debug...)
+}
 
 func (r *Run) maybeYield() {
 	if r.yield == 0 {
@@ -438,7 +447,7 @@ func hook(ev string, srv *dns.Server, a, b uintptr) {
 		return
 	}
 	g := Goid()
-	role, known := r.roleOf(g)
+	role, known := r.RoleOf(g)
 	switch ev {
 	case dns.VerifGateConnStart:
 		r.mu.Lock()
@@ -449,8 +458,10 @@ func hook(ev string, srv *dns.Server, a, b uintptr) {
 			known = true
 		}
 		r.mu.Unlock()
-		if known {
+		if known { // WStart has no effect but the pc: logged when the worker actually starts
+			r.park(role, g, ev)
 			r.Emit(Event{Ev: "w.start", C: role.ID})
+			return
 		}
 	case dns.VerifGatePktStart:
 		if r.PC != nil {
@@ -513,6 +524,9 @@ func hook(ev string, srv *dns.Server, a, b uintptr) {
 		r.mu.Unlock()
 	}
 	r.Emit(e)
+	if f := r.OnRecord; f != nil {
+		f(ev)
+	}
 	r.maybeYield()
 }
 
@@ -523,7 +537,7 @@ func (r *Run) Exited(role Role) bool { r.mu.Lock(); defer r.mu.Unlock(); return 
 
 func (r *Run) Event(kind string, obj interface{}, arg string, n int) {
 	g := Goid()
-	role, _ := r.roleOf(g)
+	role, _ := r.RoleOf(g)
 	e := Event{Ev: kind, Res: arg}
 	switch role.Kind {
 	case "s":
@@ -552,7 +566,7 @@ func (r *Run) Event(kind string, obj interface{}, arg string, n int) {
 
 func (r *Run) Gate(kind string, obj interface{}) {
 	g := Goid()
-	role, known := r.roleOf(g)
+	role, known := r.RoleOf(g)
 	if !known {
 		return
 	}
